@@ -31,6 +31,7 @@ for line in sys.stdin:
 '''
 _proc = None
 _pid = None
+last_seconds = 0.0
 
 
 def _server():
@@ -58,8 +59,11 @@ def _stop():
 
 def run(wf, job, outdir, timeout=45.0):
     """-> ("ok", output object) | ("failed", stderr tail)"""
+    import time
+
     os.makedirs(outdir, exist_ok=True)
     p = _server()
+    t0 = time.monotonic()
     p.stdin.write(json.dumps({"wf": wf, "job": job, "outdir": outdir}) + "\n")
     p.stdin.flush()
     import select
@@ -74,6 +78,8 @@ def run(wf, job, outdir, timeout=45.0):
     if not line:
         raise RuntimeError("reference runner died")
     r = json.loads(line)
+    global last_seconds
+    last_seconds = time.monotonic() - t0
     if r["rc"] == 0:
         return "ok", json.loads(r["out"])
     return "failed", r["err"]
